@@ -177,6 +177,27 @@ def process_results(check, obs, known):
                     ob.first_model = fmt_model(ob, model)
                     again.append(ob)
                     continue
+                # the solver's model may rest on an interpretation of an uninterpreted function (libm) or of an undefined value that the
+                # real run does not share: search the kernel-argument boundary values for a natively reproducing witness before giving up
+                if ob.vars and not getattr(ob, "reinterpreted", False) and getattr(ob, "realisable", None) is None and len(ob.vars) <= 3 \
+                        and all(sv != T.INT for _, sv in ob.vars):
+                    found = None
+                    try:
+                        cands = check.witness_candidates(ob)
+                        for cand in cands:
+                            pv2, qv2, calls2 = check.replay(cur, cand)
+                            if pv2 is True and qv2 is False:
+                                found = (cand, calls2)
+                                break
+                    except Exception:   # noqa
+                        found = None
+                    if found is not None:
+                        cand, calls2 = found
+                        check.notes.append("%s: the solver's counterexample %s did not reproduce (abstracted function / undefined value); a native "
+                                           "search over boundary inputs found the reproducing witness %s" % (ob.name, fmt_model(ob, model), fmt_model(ob, cand)))
+                        path = write_replay(check, ob, cand, calls2, "reproduced (witness found by native search after an unreproducible solver model)")
+                        check.violations.append((ob.name, path, fmt_model(ob, cand)))
+                        continue
                 path = write_replay(check, ob, model, calls, "not reproduced pre=%r post=%r" % (pv, qv))
                 why = ("the counterexample is for the width-reduced re-interpretation of the IR and does not lift to full width"
                        if getattr(ob, "reinterpreted", False) else "encoder or oracle error")
